@@ -30,6 +30,7 @@ CONSTANTS Slots,      \* arena slots (model addresses of underlying blocks), nat
           Guard,      \* number of guard bytes after the user bytes
           Align,      \* sizeof(void*): the record is placed at the next multiple (as coded: always >= 1 byte of padding)
           NodeSize,   \* sizeof(MemoryLeakDetectorNode)
+          SepAll,     \* TRUE in builds without guard bytes (CPPUTEST_DISABLE_MEM_CORRUPTION_CHECK): every family keeps its record separately
           GBCode,     \* the guard byte values the detector writes, big-endian base 256 (Guard <= 3; cfg files have no tuples)
           \* --- the finite menus used by Next (model checking / generation); the actions themselves take any value
           SmallSizes, BigSizes, CallocPairs, StrLens, StrNs, Vals, Faults, Variants, Eps, MaxOff
@@ -61,7 +62,7 @@ Rem(x) == CASE x.t = "S" -> x.n % Align
             [] OTHER     -> 0
 \* size of the underlying request: user + guard, padded to the record's alignment, + the record (inline layout)
 WithGuard(x)  == Add(x, Guard)
-Padded(x)     == Add(WithGuard(x), Align - Rem(WithGuard(x)))
+Padded(x)     == IF Guard = 0 THEN x ELSE Add(WithGuard(x), Align - Rem(WithGuard(x)))    \* (as coded: no padding without guard bytes)
 Total(x, sep) == IF sep THEN Padded(x) ELSE Add(Padded(x), NodeSize)
 Fits(x)       == IsSmall(x) /\ x.n <= Cap
 
@@ -134,7 +135,7 @@ Satisfiable(size, sep, fault) ==
 FailRet(ep) == IF Throws(ep) THEN "badalloc" ELSE "null"
 
 Obtain(op, ep, s, size, fault, n) ==
-    LET sep == FamOf(ep) = "malloc"
+    LET sep == SepAll \/ FamOf(ep) = "malloc"
         ok  == Satisfiable(size, sep, fault) IN
     /\ blk[s] = NoBlk
     /\ IF ok THEN /\ blk' = [blk EXCEPT ![s] = Block(Obj(FamOf(ep), cur[FamOf(ep)]), size.n, sep)]
